@@ -92,6 +92,8 @@ def panic_sig(rr, i):
                         sig["declared_size"] = int(x[5:])
     if t[0] == "list":
         sig["list"] = True
+    if rr.prog.tags.get("foreign_integrity"):
+        sig["foreign_integrity"] = rr.prog.tags["foreign_integrity"]
     return sig
 
 
@@ -700,6 +702,22 @@ def gen_metadata_programs(r, n):
             ops.append(f"metadata {f2} c0 {hx(key)}")
         ops.append("list c0")
         progs.append(Program(f"meta{i}", ops, tags={"exp": exp, "write": w, "mode": mode}))
+    # deep nesting around serde_json's recursion limit (parse: 128 levels; serialise: unlimited)
+    for depth in (100, 120, 125, 126, 127):
+        ids = G.Ids()
+        v = None
+        for _ in range(depth):
+            v = [v]
+        key = f"deep{depth}".encode()
+        d = b"deep"
+        _, ops = w_stream(ids, "s", key, d, [d], algo="sha256", time=1, meta=v)
+        w = len(ops) - 1
+        for f2 in "sa":
+            ops.append(f"metadata {f2} c0 {hx(key)}")
+        ops.append("list c0")
+        exp = {"key": key, "sri": L.sri_of("sha256", d), "time": 1, "size": 4, "json": v, "raw": None}
+        progs.append(Program(f"deepmeta{depth}", ops, tags={"exp": exp, "write": w, "mode": "deep", "json_depth": depth,
+                                                            "variety": ("deep", depth)}))
     return progs
 
 
@@ -713,6 +731,8 @@ def mon_metadata(rr):
         return out
     wl = rr.impl[w]
     sig = {"mode": t["mode"], "op": rr.prog.ops[w].split(" ")[0], "api": rr.prog.ops[w].split(" ")[1] if t["mode"] == "oneshot" else None}
+    if "json_depth" in t:
+        sig["json_depth"] = t["json_depth"]
     if t["mode"].startswith("stream"):
         sig.update(writer_sig(rr, w))
     if rclass(wl) != "ok":
@@ -1215,3 +1235,54 @@ def canon_for_flavour_compare(op, line):
                             "index_find", "list"):
         s = re.sub(r"time=\d{13}\b", "time=T", s)
     return s
+
+
+# ---------------------------------------------------------------------------------------------
+# C20: hostile on-disk states (foreign records, wrong node kinds)
+# ---------------------------------------------------------------------------------------------
+
+FOREIGN_INTEGRITIES = {
+    "unparsable_algo": "md5-abc",
+    "no_dash": "sha256",
+    "empty": "",
+    "bad_base64": "sha256-!!!",
+    "empty_digest": "sha256-",
+    "one_byte_digest": "sha256-YQ==",
+    "unpadded": "sha256-abc",
+    "ok_but_missing": "sha1-deadbeef",
+    "whitespace_only": "   ",
+}
+
+
+def gen_hostile_state_programs(r, n):
+    progs = []
+    kinds = list(FOREIGN_INTEGRITIES.items())
+    for i in range(n):
+        name, integ = kinds[i % len(kinds)]
+        k = f"fk{i}"
+        fr = L.frame(L.record_json(k, integ, 1, 0, None, None))
+        ops = [f"put c0/{L.bucket_rel(k.encode())} {hx(fr)}"]
+        kb = hx(k.encode())
+        for fi, fl in enumerate("sa"):
+            ops += [f"metadata {fl} c0 {kb}", f"read {fl} c0 {kb}", f"copy {fl} c0 {kb} out/d{fl}{i}",
+                    f"hard_link {fl} c0 {kb} out/h{fl}{i}", f"ropen {fl} c0 R{2 * i + fi + 1} {kb}"]
+        ops += [f"remove_fully s c0 {kb}", "list c0", w_oneshot("s", "sha256", k.encode(), b"v"), f"read a c0 {kb}"]
+        progs.append(Program(f"foreign-{name}", ops, tags={"foreign_integrity": name, "variety": name}))
+    # wrong node kinds where files are expected
+    for j, (what, mk) in enumerate([
+            ("dir_at_bucket", lambda: [f"mkdir c0/{L.bucket_rel(b'k')}"]),
+            ("dir_at_content", lambda: [f"mkdir c0/{L.content_rel(L.sri_of('sha256', b'v'))}"]),
+            ("file_at_index", lambda: ["put c0/index-v5 x61"]),
+            ("file_at_tmp", lambda: ["put c0/tmp x61"]),
+            ("file_at_content", lambda: ["put c0/content-v2 x61"]),
+            ("file_in_index", lambda: ["put c0/index-v5/zz x6e6f74206120627563" , "put c0/index-v5/aa/bb x0a"]),
+            ("file_top_level", lambda: [w_oneshot("s", "sha256", b"k", b"v"), "put c0/stray x61"])]):
+        ops = mk()
+        for fl in "sa":
+            ops += [f"metadata {fl} c0 x6b", f"read {fl} c0 x6b", w_oneshot(fl, "sha256", b"k", b"v"),
+                    f"read_hash {fl} c0 {sri_tok('sha256', b'v')}", f"remove {fl} c0 x6b"]
+        ops += ["list c0", "clear s c0", "list c0"]
+        # a regular file where a directory is expected (ENOTDIR / EEXIST details) is outside the model:
+        # those programs are judged by the panic / hang monitor only
+        progs.append(Program(f"hostile-{what}", ops, model=not what.startswith("file_"), tags={"variety": what}))
+    return progs
